@@ -119,6 +119,15 @@ func (s *Staking) processDoubleSignV5(config *params.YouParams, currentDB *state
 	if len(doubleSign.Signs) < 2 {
 		return
 	}
+	// Only the kinds of vote a validator may cast once per round index can be double-signed. A
+	// validator legitimately casts two NextIndex votes (for different hashes) in one round index,
+	// and the detector in the consensus engine never reports those (nor proposals).
+	switch doubleSign.VoteType {
+	case Prevote, Precommit, Certificate:
+	default:
+		logging.Warn("processDoubleSignV5: vote type can not be double-signed", "voteType", doubleSign.VoteType)
+		return
+	}
 	// a double sign needs at least two different block hashes
 	distinct := false
 	for _, info := range doubleSign.Signs {
